@@ -83,6 +83,10 @@ def perturbations(desc, tier):
         else:
             kd = dict(k.opt)[n]
             yield "attr-added", (tag, attrs + ((n, G.default_of(kd)),), text, children)
+            # ... also with a value that another attribute of the message already has (label == name, group == device)
+            for n2, v2 in attrs:
+                if dict(k.req + k.opt).get(n2) == kd and v2 != G.default_of(kd):
+                    yield "attr-added", (tag, attrs + ((n, v2),), text, children)
             # present-but-falsy values are still present: "" for free attributes, numeric zeros for numbers
             for fv in ("",) if kd == G.K_FREE else (0, 0.0, "0"):
                 yield "attr-added-falsy", (tag, attrs + ((n, fv),), text, children)
